@@ -23,10 +23,9 @@ func (w wrapFact) lean() string {
 }
 
 var (
-	reLenVar  = regexp.MustCompile(`(?:var )?(\w+) :?= len\(b\)`)
-	reCalls   = regexp.MustCompile(`strconv\.\w+\([^()]*\)|time\.ParseDuration\(|\bi\.FromString\(`)
-	reAtoi    = regexp.MustCompile(`^strconv\.Atoi\((strBuf|string\(b\[1 : \w+-1\]\))\)$`)
-	rePUint64 = regexp.MustCompile(`^strconv\.ParseUint\((strBuf|string\(b\[1 : \w+-1\]\)), 10, 64\)$`)
+	reLenVar = regexp.MustCompile(`(?:var )?(\w+) :?= len\(b\)`)
+	// a parse call, with at most one level of nested parentheses in its arguments
+	reCalls = regexp.MustCompile(`strconv\.\w+\((?:[^()]|\([^()]*\))*\)|time\.ParseDuration\((?:[^()]|\([^()]*\))*\)|\bi\.FromString\((?:[^()]|\([^()]*\))*\)`)
 )
 
 // classifyUnmarshal reads the normalised body of an UnmarshalJSON method.
@@ -58,6 +57,7 @@ func classifyUnmarshal(body string) wrapFact {
 	hasSlice := strings.Contains(body, slice)
 	posCheck := "if b[0] == '\"' && b[" + m[1] + "-1] == '\"' {"
 	negCheck := regexp.MustCompile(`if b\[0\] != '"' \|\| b\[` + L + `-1\] != '"' \{ return Err\w+ \}`)
+	negBare := regexp.MustCompile(`if b\[0\] != '"' \|\| b\[` + L + `-1\] != '"' \{ (?:[^{}]|\{[^{}]*\})*string\(b\)(?:[^{}]|\{[^{}]*\})*return nil \}`)
 	mentionsB0 := strings.Contains(body, "b[0]")
 	switch {
 	case !hasSlice:
@@ -69,20 +69,48 @@ func classifyUnmarshal(body string) wrapFact {
 		w.kind = "checkedBare"
 	case negCheck.MatchString(body) && negCheck.FindStringIndex(body)[0] < strings.Index(body, slice):
 		w.kind = "checkedOnly"
+	case negBare.MatchString(body) && negBare.FindStringIndex(body)[0] < strings.Index(body, slice):
+		w.kind = "checkedBare" // `if not quoted { parse string(b); …; return nil }` then strip
 	}
-	w.emptyZero = regexp.MustCompile(`if strBuf == "" \{ \*i = 0 return nil \}`).MatchString(body)
-	// every parse call must be of one recognised kind
+	w.emptyZero = regexp.MustCompile(`if (\w+ == ""|len\(\w+\) == 0) \{ \*i = 0 return nil \}`).MatchString(body)
+	// every parse call must be of one recognised kind, applied to the stripped text or to the whole token
+	argOK := map[string]bool{"string(" + slice + ")": true, "string(b)": true}
+	for _, a := range regexp.MustCompile(`(?:var )?(\w+) :?= string\(b(?:\[1 : `+L+`-1\])?\)`).FindAllStringSubmatch(body, -1) {
+		argOK[a[1]] = true
+	}
 	kinds := map[string]bool{}
 	for _, c := range reCalls.FindAllString(body, -1) {
-		c2 := strings.Replace(c, "string(b)", "strBuf", 1)
+		open := strings.IndexByte(c, '(')
+		fn, args := c[:open], c[open+1:len(c)-1]
+		first := args
+		rest := ""
+		if depth, cut := 0, -1; true {
+			for i, ch := range args {
+				if ch == '(' {
+					depth++
+				} else if ch == ')' {
+					depth--
+				} else if ch == ',' && depth == 0 {
+					cut = i
+					break
+				}
+			}
+			if cut >= 0 {
+				first, rest = args[:cut], strings.TrimSpace(args[cut+1:])
+			}
+		}
 		switch {
-		case reAtoi.MatchString(c2):
+		case !argOK[first]:
+			kinds["unknown"] = true
+		case fn == "strconv.Atoi" && rest == "":
 			kinds["atoi"] = true
-		case rePUint64.MatchString(c2):
+		case fn == "strconv.ParseInt" && rest == "10, 64":
+			kinds["atoi"] = true // same function on a 64-bit platform
+		case fn == "strconv.ParseUint" && rest == "10, 64":
 			kinds["parseUint64"] = true
-		case c == "time.ParseDuration(":
+		case fn == "time.ParseDuration" && rest == "":
 			kinds["parseDuration"] = true
-		case c == "i.FromString(":
+		case fn == "i.FromString" && rest == "":
 			kinds["fromString"] = true
 		default:
 			kinds["unknown"] = true
